@@ -348,24 +348,16 @@ result_t DateTimeDataType::readSymbols(size_t offset, size_t length, const Symbo
     }
     switch (type) {
       case 2:  // date only
-        if (!hasFlag(REQ) && (symbol == m_replacement || (!hasFlag(REZ) && symbol == 0))) {
-          if (i + 1 != length) {
-            *output << NULL_VALUE << ".";
-            break;
-          } else if (last == m_replacement || (!hasFlag(REZ) && last == 0)) {
-            if (length == 2) {  // number of days since 01.01.1900
-              *output << NULL_VALUE << ".";
-            }
-            *output << NULL_VALUE;
-            break;
-          }
-        }
-        if (length == 2) {  // number of days since 01.01.1900
+        if (length == 2) {  // number of days since 01.01.1900 (16 bit value, replacement only if both bytes match)
           if (i == 0) {
             break;
           }
+          if (!hasFlag(REQ) && symbol == m_replacement && last == m_replacement) {
+            *output << NULL_VALUE << "." << NULL_VALUE << "." << NULL_VALUE;
+            break;
+          }
           int mjd = last + symbol*256 + 15020;  // 01.01.1900
-          int y = static_cast<int>((mjd-15078.2)/365.25);
+          int y = static_cast<int>(floor((mjd-15078.2)/365.25));
           int m = static_cast<int>((mjd-14956.1-static_cast<int>(y*365.25))/30.6001);
           int d = mjd-14956-static_cast<int>(y*365.25)-static_cast<int>(m*30.6001);
           m--;
@@ -377,8 +369,23 @@ result_t DateTimeDataType::readSymbols(size_t offset, size_t length, const Symbo
                   << setw(2) << static_cast<unsigned>(m) << "." << static_cast<unsigned>(y + 1900);
           break;
         }
+        if (!hasFlag(REQ) && (symbol == m_replacement || (!hasFlag(REZ) && symbol == 0))) {
+          if (i + 1 != length) {
+            *output << NULL_VALUE << ".";
+            break;
+          } else if (last == m_replacement || (!hasFlag(REZ) && last == 0)) {
+            *output << NULL_VALUE;
+            break;
+          }
+        }
         if (i + 1 == length) {
-          *output << (2000 + symbol);
+          if (!hasFlag(REQ) && symbol == m_replacement) {
+            *output << NULL_VALUE;  // replacement in the year only
+          } else if (symbol > 99) {
+            return RESULT_ERR_OUT_OF_RANGE;  // invalid year
+          } else {
+            *output << (2000 + symbol);
+          }
         } else if (symbol < 1 || (i == 0 && symbol > 31) || (i == 1 && symbol > 12)) {
           return RESULT_ERR_OUT_OF_RANGE;  // invalid date
         } else {
